@@ -2,7 +2,7 @@
    Statements only; K is an arbitrary field (FLaws K), so every statement holds in particular
    for all real field values (instance ROps) and is executed at Qc by the correspondence. *)
 From Coq Require Import Qcanon Reals.
-From DF Require Import Prelude FieldK NDArray Diff C04_proofs C04_linear C04_ring C04_uniform C04_witness.
+From DF Require Import Prelude FieldK NDArray Diff C04_proofs C04_linear C04_ring C04_uniform C04_witness C04_shift.
 
 (* --- runs: each maximal run of valid cells is differentiated on its own --- *)
 Theorem C04_whole_valid_line_is_one_run : forall (K : FOps) order h (r : list K),
@@ -143,6 +143,15 @@ Theorem C04_ring_second_derivative : forall (K : FOps), FLaws K -> forall h (u :
          (fmul h h).
 Proof. exact ring_second_derivative. Qed.
 Print Assumptions C04_ring_second_derivative.
+
+(* ... hence the derivative of a fully valid periodic line commutes with every cyclic shift
+   (roll k = numpy.roll), for every length, both orders *)
+Theorem C04_ring_shift_commutes : forall (K : FOps), FLaws K -> forall order h (u : list K) k,
+  (order = 1 \/ order = 2)%nat ->
+  diff_line K order h true true (roll k u) (repeat true (length (roll k u)))
+  = roll k (diff_line K order h true true u (repeat true (length u))).
+Proof. exact ring_shift_commutes. Qed.
+Print Assumptions C04_ring_shift_commutes.
 
 (* the full ring statement (shift invariance for EVERY validity pattern) is false of the faithful model:
    known finding C04-periodic-masked-seam; the witness is replayed on the implementation by the harness *)
